@@ -10,7 +10,11 @@ What is read (ast only, nothing is imported or executed):
     correspondence run, where each kind must be sent exactly once and land in the modelled
     registry); an unknown guard is unrecognised.
   * every registered callback of a protocol layer must be a plain forwarder
-    `self.toUpper(X.fromProtocolTreeNode(node))` (logger calls and the iq layer's gotPong aside).
+    `self.toUpper(X.fromProtocolTreeNode(node))` (logger calls and the iq layer's gotPong aside).  For the
+    iq layer's own callbacks (onPong / onPingError) an unrecognised shape is MEASURED (_probe_iq_layer: pings
+    registered through sendIq with and without an outstanding keep-alive id, result / error delivered: is the
+    reply handed upward, is the keep-alive queue emptied only by its own pong?); a deviation is returned as
+    info["tie_broken"] while the table itself stays the real one, so that the model run remains meaningful.
   * AxolotlBaseLayer.getKeysFor, AxolotlControlLayer.flush_keys, AxolotlSendLayer.sendToGroup:
     the single `self._sendIq(...)` call and which callbacks it passes.
   * YowProtocolLayer.processIqRegistry / YowInterfaceLayer.processIqRegistry: whether the
@@ -541,6 +545,64 @@ def _probe_send(repo):
     return _run_probe(repo, _PROBE_SEND, "_sendIq")
 
 
+_PROBE_IQ = r"""
+import sys, json
+import six, importlib.util
+_imp = six._importer; _cls = type(_imp)
+if not hasattr(_cls, 'find_spec'):
+    _cls.find_spec = lambda self, fullname, path=None, target=None: importlib.util.spec_from_loader(fullname, self) if fullname in self.known_modules else None
+    _cls.create_module = lambda self, spec: self.load_module(spec.name)
+    _cls.exec_module = lambda self, module: None
+if _imp not in sys.meta_path: sys.meta_path.append(_imp)
+from yowsup.structs import ProtocolTreeNode
+from yowsup.layers.protocol_iq import YowIqProtocolLayer
+from yowsup.layers.protocol_iq.protocolentities import PingIqProtocolEntity
+def fresh():
+    layer = YowIqProtocolLayer()
+    layer.up, layer.down = [], []
+    layer.toUpper = layer.up.append
+    layer.toLower = layer.down.append
+    return layer
+def reply(ping, typ):
+    ch = [ProtocolTreeNode("error", {"code": "404", "text": "item-not-found"})] if typ == "error" else []
+    return ProtocolTreeNode("iq", {"id": ping.getId(), "type": typ, "from": "s.whatsapp.net"}, ch)
+def ups(layer):
+    r = [(e.getId(), e.getType()) for e in layer.up]; del layer.up[:]; return r
+def queue(layer):
+    return sorted(getattr(layer, "_pingQueue", {}))
+out = {}
+# a ping carried for the upper layers, no keep-alive outstanding
+for typ in ("result", "error"):
+    l = fresh(); a = PingIqProtocolEntity(); l.sendIq(a)
+    if len(l.down) != 1 or a.getId() not in l.iqRegistry: raise SystemExit("sendIq(ping) does not register / send once")
+    l.receive(reply(a, typ))
+    out["forwards_%s_without_keepalive" % typ] = ups(l) == [(a.getId(), typ)] and a.getId() not in l.iqRegistry
+# the same while a keep-alive ping (YowPingThread: waitPong, sendIq) is outstanding
+for typ in ("result", "error"):
+    l = fresh(); k = PingIqProtocolEntity(); l.waitPong(k.getId()); l.sendIq(k)
+    a = PingIqProtocolEntity(); l.sendIq(a)
+    l.receive(reply(a, typ))
+    out["forwards_%s_with_keepalive_outstanding" % typ] = ups(l) == [(a.getId(), typ)] and a.getId() not in l.iqRegistry
+    out["keepalive_still_waiting_after_other_%s" % typ] = queue(l) == [k.getId()] and k.getId() in l.iqRegistry
+    l.receive(reply(k, "result"))
+    out["own_pong_forwarded_after_other_%s" % typ] = ups(l) == [(k.getId(), "result")]
+    out["own_pong_empties_queue_after_other_%s" % typ] = queue(l) == [] and k.getId() not in l.iqRegistry
+# the keep-alive's pong first, then the other ping's
+l = fresh(); k = PingIqProtocolEntity(); l.waitPong(k.getId()); l.sendIq(k); a = PingIqProtocolEntity(); l.sendIq(a)
+l.receive(reply(k, "result")); first = ups(l)
+l.receive(reply(a, "result")); second = ups(l)
+out["own_pong_first_then_other"] = first == [(k.getId(), "result")] and second == [(a.getId(), "result")] and not l.iqRegistry
+print("PROBE " + json.dumps(out))
+"""
+
+
+def _probe_iq_layer(repo):
+    """Behavioural fallback for the callbacks of the iq layer (onPong / onPingError: must hand every consumed
+    reply upward, whatever keep-alive ping is outstanding): -> (dict of observations, list of the false ones)"""
+    res = _run_probe(repo, _PROBE_IQ, "YowIqProtocolLayer callbacks")
+    return res, sorted(k for k, v in res.items() if not v)
+
+
 def translate(repo=None):
     repo = repo or REPO
     routes, info = {}, {"leaves": 0, "callbacks_checked": 0}
@@ -574,7 +636,19 @@ def translate(repo=None):
             if act[0] == "reg":
                 for cb in act[1:]:
                     if cb is not None:
-                        _check_forwarder(cls, cb, rel)
+                        try:
+                            _check_forwarder(cls, cb, rel)
+                        except TranslateError as e:
+                            if lay != "LIq":
+                                raise
+                            # the iq layer's callbacks (gotPong + forward): measure instead of giving up, and
+                            # keep the table -- a deviation is reported as a broken tie WITH the model still usable
+                            res, bad = _probe_iq_layer(repo)
+                            info["iq_layer_callbacks"] = "measured by probe (source shape not recognised: %s)" % e
+                            if bad:
+                                info["tie_broken"] = ("%s; probe of YowIqProtocolLayer: a consumed ping reply is NOT "
+                                                      "handed upward / the keep-alive queue is not kept per id: %s"
+                                                      % (e, ", ".join(bad)))
                         info["callbacks_checked"] += 1
                 if act[1] is None:
                     raise TranslateError("%s: registration without success callback at %r" % (rel, conds))
